@@ -260,7 +260,9 @@ func (vc *VC) atCall(f *Frame, callee string, args []SV, pc string, st *State, p
 		vc.eng.acApplied[fmt.Sprintf("%s:%d", ac.Clause.File, ac.Clause.Line)] = true
 		vc.addObl(&Obl{Name: name, Kind: "at-call", Labels: ac.Clause.Labels, Pos: vc.eng.fset.Position(pos), PC: pc, Goal: t, Clause: ac.Clause.Text, Tier: ac.Clause.Tier})
 		// a checked assertion is known from here on
-		vc.assume(pc, t)
+		if !ac.Clause.CheckOnly {
+			vc.assume(pc, t)
+		}
 	}
 }
 
